@@ -82,6 +82,8 @@ def main(spec, tier, seed):
         axioms = {}
         if mod_ok:
             axioms, raw = core.lean_axioms(spec.lean_module, spec.theorems)
+            ok_rc, det = core.lean_recheck(spec.lean_module)
+            obligations.append((f"leanchecker {spec.lean_module}", ok_rc, det))
         for t in spec.theorems:
             ax = axioms.get(t)
             if not mod_ok:
